@@ -1663,3 +1663,125 @@ func init() {
 			return out
 		}})
 }
+
+// RESLICEGROW — a slice is not grown into its own backing array without defining the element it takes back.
+//
+// `s = s[:len(s)+1]` (legal while len < cap) exposes whatever the backing array holds there: for a container that was
+// shrunk earlier that is the *old* element. `Element.Resize` growing a ciphertext this way hands an accumulating
+// operation (MulThenAdd on a new component) the component of a previous computation instead of a zero polynomial.
+//
+// Rule: an assignment `X = X[:H]` whose bound H is len(X) plus something (directly or through a local defined as
+// len(X)) is followed, in the same statement list, by an assignment of the element it reveals (`X[n] = …`); bringing the
+// revealed element to a size or level (`X[n].Resize(..)`) does not define its content.
+func scanResliceGrow(c *core.Ctx) []ob {
+	var out []ob
+	n := 0
+	c.FuncDecls(func(pk *packages.Package, file *ast.File, fd *ast.FuncDecl) {
+		if fd.Body == nil || fileIsTestSupport(c.Program, fd.Pos()) || inExamples(pk) {
+			return
+		}
+		info := pk.TypesInfo
+		fkey := core.FuncKey(pk, fd)
+		pm := parentMap(fd.Body)
+		ast.Inspect(fd.Body, func(x ast.Node) bool {
+			as, ok := x.(*ast.AssignStmt)
+			if !ok || as.Tok != token.ASSIGN || len(as.Lhs) != 1 || len(as.Rhs) != 1 {
+				return true
+			}
+			se, ok := unparen(as.Rhs[0]).(*ast.SliceExpr)
+			if !ok || se.High == nil || se.Low != nil {
+				return true
+			}
+			xs := exprString(as.Lhs[0])
+			if exprString(se.X) != xs {
+				return true
+			}
+			// the bound: len(X) + k, or n + k with n := len(X)
+			be, ok := unparen(se.High).(*ast.BinaryExpr)
+			if !ok || be.Op != token.ADD {
+				return true
+			}
+			isLen := func(e ast.Expr) bool {
+				e = unparen(e)
+				if call, ok := e.(*ast.CallExpr); ok && isBuiltinCall(info, call, "len") && len(call.Args) == 1 {
+					return exprString(call.Args[0]) == xs
+				}
+				if o := identObj(info, e); o != nil {
+					// single definition, possibly in the init of an enclosing if
+					var def ast.Expr
+					cnt := 0
+					ast.Inspect(fd.Body, func(y ast.Node) bool {
+						if d, ok := y.(*ast.AssignStmt); ok && len(d.Lhs) == len(d.Rhs) {
+							for i, l := range d.Lhs {
+								if identObj(info, l) == o {
+									def = d.Rhs[i]
+									cnt++
+								}
+							}
+						}
+						return true
+					})
+					if cnt == 1 && def != nil {
+						if call, ok := unparen(def).(*ast.CallExpr); ok && isBuiltinCall(info, call, "len") && len(call.Args) == 1 {
+							return exprString(call.Args[0]) == xs
+						}
+					}
+				}
+				return false
+			}
+			var base ast.Expr
+			switch {
+			case isLen(be.X):
+				base = be.X
+			case isLen(be.Y):
+				base = be.Y
+			default:
+				return true
+			}
+			n++
+			key := fmt.Sprintf("RESLICEGROW:%s#%s", fkey, xs)
+			// the revealed element is assigned later in the same statement list
+			defined := false
+			if blk, ok := pm[ast.Node(as)].(*ast.BlockStmt); ok {
+				after := false
+				for _, st := range blk.List {
+					if st == ast.Stmt(as) {
+						after = true
+						continue
+					}
+					if !after {
+						continue
+					}
+					if d, ok := st.(*ast.AssignStmt); ok {
+						for _, l := range d.Lhs {
+							if ix, ok := unparen(l).(*ast.IndexExpr); ok && exprString(ix.X) == xs && (exprString(ix.Index) == exprString(base) || strings.HasPrefix(exprString(ix.Index), "len("+xs+")")) {
+								defined = true
+							}
+						}
+					}
+				}
+			}
+			props := append([]string{"C09"}, propsForKey(fkey)...)
+			if defined {
+				out = append(out, withProps(okOb("RESLICEGROW", key, c.Rel(as.Pos()), "the element taken back from the backing array is assigned afterwards", true), props...))
+			} else {
+				out = append(out, withProps(violOb("RESLICEGROW", key, c.Rel(as.Pos()), fmt.Sprintf("%s grows %s into its own backing array (%s) and never assigns the element this reveals: it still holds what an earlier, longer use of the container left there, so an operation that accumulates into the new element starts from stale data", fkey, xs, exprString(as.Rhs[0]))), props...))
+			}
+			return true
+		})
+	})
+	c.Stats["reslicegrow_sites"] = n
+	return out
+}
+
+func init() {
+	core.Register(&core.Rule{Name: "RESLICEGROW", Wide: true, Props: []string{"C09", "C04", "C08"},
+		Doc: "an assignment X = X[:len(X)+k] (the bound possibly through a local defined as len(X)) is followed in the same statement list by an assignment of the element it reveals; resizing that element does not define its content",
+		Run: func(c *core.Ctx) []ob {
+			out := scanResliceGrow(c)
+			for _, o := range control(c, "RESLICEGROW", scanResliceGrow, "(fxStack).Grow") {
+				out = append(out, withProps(o, "C09"))
+			}
+			return out
+		}})
+}
